@@ -51,6 +51,7 @@ type HistOpts struct {
 	BadVarProb   float64 // probability that a schedule request carries the reserved variable (job cannot be started)
 	FailProb     float64
 	AvoidAmbig   bool
+	EndCtxAt     int // step at which the context handed to NewPipelineRunner ends (0 = not during the history)
 	Watchdog     time.Duration
 	WSchedule    int
 	WFinish      int
@@ -235,6 +236,11 @@ func RunHistory(seed int64, o HistOpts) *HistResult {
 	q.noteConcurrency()
 	q.view = sys.Snapshot(-1)
 	for q.step = 1; q.step <= o.MaxOps && !q.dead; q.step++ {
+		if o.EndCtxAt > 0 && q.step == o.EndCtxAt {
+			// the context the runner was constructed with ends (it only governs the periodic persist loop)
+			q.journal("the context handed to NewPipelineRunner ends")
+			sys.EndConstructorContext()
+		}
 		q.doOp()
 	}
 	if !q.dead {
